@@ -117,3 +117,12 @@ Definition chk_groupkey (v ret : value) : bool :=
     [WalRecord::SetNodeProperty { id, key, value }] (variant 4: id u64, key String, value) *)
 Definition chk_wal_setprop (id : Z) (key : bytes) (v : value) (payload : bytes) : bool :=
   bytes_eqb (enc_u32 4 ++ enc_u64 id ++ enc_str key ++ enc_value v) payload.
+
+(** one case per unordered pair: both directions and the law verdicts, the values written once *)
+Definition chk_pair2 (a b : value) (h1 d1 : bool) (o1 : option (bool * comparison))
+                     (h2 d2 : bool) (o2 : option (bool * comparison))
+                     (h_ok : bool) (laws : option (bool * bool)) : bool :=
+  chk_pair a b h1 d1 o1 && chk_pair b a h2 d2 o2 && chk_pair_laws a b h_ok laws.
+Definition chk_rowkey2 (a b : value) (merged gmerged : bool) : bool :=
+  chk_rowkey a b merged && chk_rowkey a b gmerged.
+Definition k_rowkey_ne (a b : value) : bool := k_rowkey a b && negb (value_eqb a b).
